@@ -26,5 +26,7 @@ LcCheck(cfg, st, in, o) ==
                           ELSE IF st.hw[in.view] # "" /\ in.hw # st.hw[in.view] THEN "repeated elaboration yields different hardware"
                           ELSE "none"
     [] in.op = "meta"  -> IF st.meta # "" /\ in.meta # st.meta THEN "elaboration altered the metadata" ELSE "none"
+    \* after all elaborations the instance accepts/refuses an addition exactly like a fresh twin
+    [] in.op = "probe" -> IF in.same # 1 THEN "elaboration altered the metadata (frozen flag / placement cursor)" ELSE "none"
     [] OTHER -> "unknown record"
 ====
